@@ -123,14 +123,35 @@ func newInterp(r *Repo) *Interp { return newInterpFor(r, "tree") }
 // interpreted code dereferences a nil pointer: the real code would panic.
 type nilDeref struct{ pos string }
 
+// goPanic: another run-time panic of the interpreted code (index or slice
+// bounds, nil map write), raised only when nilPanics is set.
+type goPanic struct{ pos, msg string }
+
+func (it *Interp) panics(n ast.Node, format string, a ...any) {
+	if it.nilPanics {
+		pos := ""
+		if n != nil && it.posOf != nil {
+			pos = it.posOf(n.Pos())
+		}
+		panic(goPanic{pos, fmt.Sprintf(format, a...)})
+	}
+	it.fail(n, format+": the emitter would panic on this model", a...)
+}
+
 func newInterpFor(r *Repo, sub string) *Interp {
 	p := r.pkg(sub)
-	it := &Interp{info: p.TypesInfo, fset: r.Fset, pkg: p.Types, decls: map[*types.Func]*ast.FuncDecl{}, globals: map[types.Object]*Cell{},
-		out: &strings.Builder{}, hooks: map[ast.Node]func(*Interp, *Closure, []Value) ([]Value, bool){}, natives: map[string]func(*Interp, []Value) []Value{}, posOf: r.pos}
-	for _, f := range p.Syntax {
+	return newInterpRaw(p.TypesInfo, p.Types, p.Syntax, r.Fset, r.pos)
+}
+
+// newInterpRaw: an interpreter over any type-checked package (the repository's
+// packages, or an instantiation of the runtime template).
+func newInterpRaw(info *types.Info, pkg *types.Package, files []*ast.File, fset *token.FileSet, posOf func(token.Pos) string) *Interp {
+	it := &Interp{info: info, fset: fset, pkg: pkg, decls: map[*types.Func]*ast.FuncDecl{}, globals: map[types.Object]*Cell{},
+		out: &strings.Builder{}, hooks: map[ast.Node]func(*Interp, *Closure, []Value) ([]Value, bool){}, natives: map[string]func(*Interp, []Value) []Value{}, posOf: posOf}
+	for _, f := range files {
 		for _, d := range f.Decls {
 			if fd, ok := d.(*ast.FuncDecl); ok {
-				if o, ok := p.TypesInfo.Defs[fd.Name].(*types.Func); ok {
+				if o, ok := info.Defs[fd.Name].(*types.Func); ok {
 					it.decls[o] = fd
 				}
 			}
@@ -444,14 +465,17 @@ func (it *Interp) store(l ast.Expr, env *Env, v Value) {
 		switch b := base.(type) {
 		case *MapV:
 			if b == nil {
-				it.fail(l, "assignment to entry in nil map: the emitter would panic on this model")
+				it.panics(l, "assignment to entry in nil map")
 			}
 			b.m[mapKey(idx)] = v
 			return
 		case *SliceV:
 			i, ok := idx.(int64)
-			if !ok || b == nil || i < 0 || int(i) >= len(b.elems) {
-				it.fail(l, "slice index out of range / not concrete")
+			if ok && (b == nil || i < 0 || int(i) >= len(b.elems)) {
+				it.panics(l, "index %d out of range (len %d) in a store", i, lenOf(b))
+			}
+			if !ok {
+				it.fail(l, "slice index not concrete")
 			}
 			b.elems[i] = v
 			return
@@ -822,7 +846,7 @@ func (it *Interp) eval(e ast.Expr, env *Env) Value {
 			}
 			it.fail(e, "variable %s has no value in the model environment", x.Name)
 		case *types.Func:
-			if fd, ok := it.decls[o]; ok {
+			if fd, ok := it.decls[o.Origin()]; ok {
 				return &Closure{name: o.Name(), typ: fd.Type, body: fd.Body, lit: fd, decl: fd, env: newEnv(nil)}
 			}
 			return &Native{o.FullName(), nil}
@@ -852,7 +876,7 @@ func (it *Interp) eval(e ast.Expr, env *Env) Value {
 				it.fail(e, "index is not concrete")
 			}
 			if b == nil || i < 0 || int(i) >= len(b.elems) {
-				it.fail(e, "index %d out of range (len %d): the emitter would panic on this model", i, lenOf(b))
+				it.panics(e, "index %d out of range (len %d)", i, lenOf(b))
 			}
 			return b.elems[i]
 		case *MapV:
@@ -896,7 +920,7 @@ func (it *Interp) eval(e ast.Expr, env *Env) Value {
 				hi = n
 			}
 			if lo < 0 || hi > n || lo > hi {
-				it.fail(e, "slice bounds [%d:%d] out of range (len %d): the emitter would panic on this model", lo, hi, n)
+				it.panics(e, "slice bounds [%d:%d] out of range (len %d)", lo, hi, n)
 			}
 			return &SliceV{b.elems[lo:hi:hi]}
 		case string:
@@ -905,7 +929,7 @@ func (it *Interp) eval(e ast.Expr, env *Env) Value {
 				hi = n
 			}
 			if lo < 0 || hi > n || lo > hi {
-				it.fail(e, "string slice bounds [%d:%d] out of range (len %d): the emitter would panic on this model", lo, hi, n)
+				it.panics(e, "string slice bounds [%d:%d] out of range (len %d)", lo, hi, n)
 			}
 			return b[lo:hi]
 		}
@@ -1150,7 +1174,7 @@ func (it *Interp) methodValue(at ast.Node, base Value, sel *types.Selection) Val
 		c := it.fieldCell(at, base, idx[:len(idx)-1])
 		recv = c.v
 	}
-	fn := sel.Obj().(*types.Func)
+	fn := sel.Obj().(*types.Func).Origin()
 	if fd, ok := it.decls[fn]; ok {
 		// value receivers get a copy
 		if fd.Recv != nil && len(fd.Recv.List) == 1 {
